@@ -284,7 +284,8 @@ def resBodyDetermine (c : Conn) : R :=
   | none =>
   let c :=
     if t.methodNumber == M_CONNECT then
-      let c := if c.inn.status != STREAM_ERROR then { c with inn := { c.inn with status := STREAM_DATA } } else c
+      -- (finding S36, repaired: a stopped request direction is left alone, like one in error)
+      let c := if c.inn.status != STREAM_ERROR && c.inn.status != STREAM_STOP then { c with inn := { c.inn with status := STREAM_DATA } } else c
       if t.resStatusNumber == 407 then c else { c with outDataOtherAtTxEnd := true }
     else c
   let cl := getHeaderC t.resHeaders (b!"content-length")
@@ -292,7 +293,7 @@ def resBodyDetermine (c : Conn) : R :=
   -- 101 Switching Protocols without a body: both directions go into tunnel mode
   if t.resStatusNumber == 101 && te.isNone && cl.isNone then
     let c := { c with outState := .finalize }
-    let c := if c.inn.status != STREAM_ERROR then { c with inn := { c.inn with status := STREAM_TUNNEL } } else c
+    let c := if c.inn.status != STREAM_ERROR && c.inn.status != STREAM_STOP then { c with inn := { c.inn with status := STREAM_TUNNEL } } else c
     let c := { c with out := { c.out with status := STREAM_TUNNEL } }
     txStateResponseHeaders cfg uid c
   else
